@@ -1,9 +1,136 @@
-import LLTD.Model.Block
-import LLTD.Spec.Block
+/-
+  C07 — Every observed probe is reported to the mapper exactly once.
+  Model level: the list of pending observations (`sees`, newest first) is recorded without duplicates, listed in
+  order by a Query up to the frame capacity, and only what was listed is dropped.
+-/
+import LLTD.Lemmas.Safe
 
 namespace LLTD.C07
-open LLTD LLTD.Spec
+open LLTD
 
-theorem placeholder_layout : X.sizeofDemux = 32 := by decide
+/-- the observation parseProbe builds from a frame -/
+def obsOfFrame (img : List Nat) : Obs :=
+  { typ := if fOpcode img = X.opProbe then 1 else 0, realSrc := fRealSrc img, src := fEthSrc img, dst := fEthDst img }
+
+/-- frames addressed to other stations are never recorded -/
+theorem not_for_us (c : Cfg) (w : World) (st : St) (img : List Nat) (h : fRealDst img ≠ c.ourMac) :
+    parseProbe c w st img = { st := st, w := w, fx := [] } := by
+  unfold parseProbe
+  have : (fRealDst img != c.ourMac) = true := by simp [bne, h]
+  simp [this]
+
+/-- a Probe/Train for this station with a new (Ethernet source, real source) pair is recorded once, at the head -/
+theorem record_new (c : Cfg) (w : World) (st : St) (img : List Nat) (hus : fRealDst img = c.ourMac)
+    (hroom : st.count < 1024) (hm : (w.malloc X.nodeBytes).2 = true)
+    (hnew : st.sees.any (fun p => (obsOfFrame img).src == p.src && (obsOfFrame img).realSrc == p.realSrc) = false) :
+    (parseProbe c w st img).st.sees = obsOfFrame img :: st.sees ∧ (parseProbe c w st img).fx = [] := by
+  unfold parseProbe
+  have h1 : (fRealDst img != c.ourMac) = false := by simp [bne, hus]
+  have h2 : seesFull st.count = false := by simp [seesFull]; omega
+  unfold obsOfFrame at hnew
+  have hm' : (w.malloc 28).2 = true := by simpa using hm
+  simp [h1, h2, hm', hnew, obsOfFrame]
+
+/-- a duplicate (same Ethernet source and real source) is not recorded again -/
+theorem record_dup (c : Cfg) (w : World) (st : St) (img : List Nat)
+    (hdup : st.sees.any (fun p => (obsOfFrame img).src == p.src && (obsOfFrame img).realSrc == p.realSrc) = true) :
+    (parseProbe c w st img).st = st ∧ (parseProbe c w st img).fx = [] := by
+  unfold parseProbe
+  unfold obsOfFrame at hdup
+  simp only []
+  repeat' split
+  all_goals first | exact ⟨rfl, rfl⟩ | (simp_all)
+
+/-- the serialisation loop lists the first `rem` pending observations, in order, when they fit -/
+theorem queryLoop_take (mtu : Nat) (sees : List Obs) :
+    ∀ (rem off : Nat), off + 20 * (min rem sees.length) ≤ mtu →
+      queryLoop mtu sees rem off = ((sees.take rem).flatMap obsWire, min rem sees.length) := by
+  induction sees with
+  | nil => intro rem off _; cases rem <;> simp [queryLoop]
+  | cons o os ih =>
+    intro rem off hfit
+    cases rem with
+    | zero => simp [queryLoop]
+    | succ r =>
+      simp only [queryLoop]
+      have hmin : min (r + 1) (o :: os).length = min r os.length + 1 := by simp [Nat.succ_min_succ]
+      rw [hmin] at hfit
+      have hno : ¬ off + 20 > mtu := by omega
+      rw [if_neg hno, ih r (off + 20) (by omega)]
+      simp [hmin]
+
+theorem queryNum_eq (count mtu : Nat) (hm : mtu ≤ 9216) : queryNum count mtu = min count (queryMaxDescs mtu) := by
+  unfold queryNum
+  have hmax : queryMaxDescs mtu < u16 := by
+    unfold queryMaxDescs u16
+    simp only [X.sizeofDemux_val, X.sizeofQryRespHdr_val]
+    split <;> omega
+  split
+  · next h => rw [Nat.mod_eq_of_lt hmax]; omega
+  · next h => rw [Nat.mod_eq_of_lt (by omega)]; omega
+
+theorem query_fits (mtu num : Nat) (h : num ≤ queryMaxDescs mtu) (hm : 34 < mtu) : 34 + 20 * num ≤ mtu := by
+  unfold queryMaxDescs at h
+  simp only [X.sizeofDemux_val, X.sizeofQryRespHdr_val, Nat.reduceAdd] at h
+  rw [if_pos hm] at h
+  have := Nat.div_mul_le_self (mtu - 34) 20
+  omega
+
+/-- THE QUERY THEOREM: the response lists the first min(pending, capacity) observations in order, says `more` iff
+    some remain, carries the Query's sequence number, and exactly what was listed is dropped from the record -/
+theorem query (c : Cfg) (w : World) (st : St) (img : List Nat) (hc : CfgOk c) (hi : St.Inv st) (hm : (w.malloc c.mtuEff).2 = true) :
+    let n := min st.sees.length (queryMaxDescs c.mtuEff)
+    (parseQuery c w st img).fx =
+        [Fx.send ((w.malloc c.mtuEff).1.send).2 c.idx
+          (queryFrame c img (fSeq img) n (decide (st.sees.length > n)) ((st.sees.take n).flatMap obsWire))] ∧
+    (parseQuery c w st img).st.sees = st.sees.drop n := by
+  have hge := mtuEff_ge c hc
+  have hle := mtuEff_le c hc
+  simp only []
+  have hnum : queryNum st.count c.mtuEff = min st.sees.length (queryMaxDescs c.mtuEff) := by
+    rw [queryNum_eq _ _ hle, hi.count]
+  have hfit := query_fits c.mtuEff (min st.sees.length (queryMaxDescs c.mtuEff)) (Nat.min_le_right _ _) (by omega)
+  have hloop := queryLoop_take c.mtuEff st.sees (min st.sees.length (queryMaxDescs c.mtuEff)) 34 (by
+    have : min (min st.sees.length (queryMaxDescs c.mtuEff)) st.sees.length = min st.sees.length (queryMaxDescs c.mtuEff) := by omega
+    rw [this]; exact hfit)
+  have hmin2 : min (min st.sees.length (queryMaxDescs c.mtuEff)) st.sees.length = min st.sees.length (queryMaxDescs c.mtuEff) := by omega
+  rw [hmin2] at hloop
+  unfold parseQuery
+  simp only [hm, Bool.not_true, Bool.false_eq_true, if_false]
+  have hh : ¬ (X.sizeofDemux + X.sizeofQryRespHdr > c.mtuEff) := by simp only [X.sizeofDemux_val, X.sizeofQryRespHdr_val]; omega
+  simp only [if_neg hh, hnum]
+  have e34 : X.sizeofDemux + X.sizeofQryRespHdr = 34 := by decide
+  rw [e34, hloop]
+  simp only [hi.count, sendFx]
+  exact ⟨trivial, trivial⟩
+
+/-- conservation over successive Queries (specification level): splitting a record into chunks of at most
+    `cap > 0` and concatenating what each response listed gives back the record — nothing lost, nothing twice -/
+def drain (cap : Nat) : Nat → List Obs → List (List Obs)
+  | 0, _ => []
+  | fuel + 1, p => if p.isEmpty then [] else p.take cap :: drain cap fuel (p.drop cap)
+
+theorem drain_conserves (cap : Nat) (hcap : 0 < cap) (p : List Obs) : ∀ fuel, p.length ≤ fuel → (drain cap fuel p).flatten = p := by
+  intro fuel
+  induction fuel generalizing p with
+  | zero => intro h; have : p = [] := List.eq_nil_of_length_eq_zero (by omega); subst this; rfl
+  | succ k ih =>
+    intro h
+    simp only [drain]
+    cases hp : p with
+    | nil => rfl
+    | cons a as =>
+      simp only [List.isEmpty_cons, Bool.false_eq_true, if_false, List.flatten_cons]
+      rw [ih ((a :: as).drop cap) (by
+        rw [hp] at h
+        simp only [List.length_drop, List.length_cons] at *
+        omega)]
+      exact List.take_append_drop cap (a :: as)
+
+/-- a topology Reset discards the record -/
+theorem reset_discards (st : St) : (resetSt st).sees = [] ∧ (resetSt st).count = 0 := ⟨rfl, rfl⟩
+
+/-- non-vacuity: three pending observations, capacity 2: two Queries deliver 2 + 1 -/
+example : (drain 2 4 [⟨1, [1], [2], [3]⟩, ⟨0, [1], [4], [3]⟩, ⟨1, [5], [2], [3]⟩]).map List.length = [2, 1] := by decide
 
 end LLTD.C07
